@@ -378,6 +378,10 @@ pub fn decode_full_report(payload: &[u8]) -> Result<([[u8; 32]; 3], &[u8]), Repo
     }
 
     // Decode the offset for the bytes reportBlob data
+    // The ABI word is a 32-byte integer; a value that does not fit the low 8 bytes cannot be a valid offset.
+    if payload[96..120].iter().any(|b| *b != 0) {
+        return Err(ReportError::InvalidLength("offset"));
+    }
     let offset = usize::from_be_bytes(
         payload[96..128][24..Report::WORD_SIZE] // Offset value is stored as Little Endian
             .try_into()
@@ -398,6 +402,10 @@ pub fn decode_full_report(payload: &[u8]) -> Result<([[u8; 32]; 3], &[u8]), Repo
     }
 
     // Decode the length of the bytes reportBlob data
+    // `offset + 24 <= length_end <= payload.len()`, so this slice is in range.
+    if payload[offset..offset + 24].iter().any(|b| *b != 0) {
+        return Err(ReportError::InvalidLength("bytes data"));
+    }
     let length = usize::from_be_bytes(
         payload[offset..length_end][24..Report::WORD_SIZE] // Length value is stored as Little Endian
             .try_into()
